@@ -518,3 +518,35 @@ def random_history(real, rng, nsteps, prios=(0,), filters=(1,), tags=(0,), delay
             evs.extend(real.settle_events())
     evs.extend(real.settle_events())
     return evs
+
+
+
+def reexecute(cfg, events, nprocs=3):
+    """Replay a recorded store trace on the CURRENT tree: the same calls (tokens by their recorded numbers), the same
+    ticks and end-of-instant points.  Returns the newly recorded trace."""
+    via_edge = cfg["kind"] in ("buffer", "fleet", "conveyor", "slotted") and not any(
+        e.get("k") == "c" and e.get("op") in ("rp", "rg") and e.get("prio", 0) != 0 for e in events)
+    real = RealStore(cfg, nprocs=nprocs, via_edge=via_edge)
+    out = [real.settle()]
+    by_gid = {}
+    for e in events[1:]:
+        k = e["k"]
+        if k == "t":
+            out.append(real.tick())
+        elif k in ("e", "f"):
+            out.extend(real.settle_events()) if k == "e" else None
+        elif k == "c":
+            c = {"op": e["op"], "p": e["p"], "n": 0, "prio": e["prio"], "flt": e["flt"], "tag": e["tag"], "d": e["d"]}
+            if e["op"] in ("put", "get", "cp", "cg"):
+                tok = by_gid.get(e["tok"])
+                live = real.live_tokens()
+                c["n"] = (live.index(tok) + 1) if tok is not None and tok in live else 0
+                if c["n"] == 0 and tok is not None and tok["state"] != "live":
+                    # a dead token of the recording: resolve_token(0) hands the most recent dead token
+                    pass
+            ev, _res = real.call(c)
+            if e["op"] in ("rp", "rg") and ev["res"] == "tok":
+                by_gid[e["tok"]] = real.tokens[-1]
+            out.append(ev)
+    out.extend(real.settle_events())
+    return {"cfg": cfg, "src": "replay", "ev": out}
